@@ -11,24 +11,23 @@ that the kernel lexes every distinct DDL text once:
   dumps   : the distinct catalogs, a `sqlite_master` row pointing at its DDL text by index;
   pairs   : (created, reference) catalogs that belong together.
 
-`schemaEqIdx cls a b` compares two such catalogs on class indices; `schemaEqIdx_sound`
-(Proofs/SchemaFacts.lean) lifts it to the real comparison:
-  classesOk texts cls → schemaEqIdx cls a b → schemaEq (toDump texts a) (toDump texts b).
+  strs    : the distinct names / types / defaults (explicit literals); catalogs refer to them by index.
+
+`schemaEqIdx cls a b` compares two such catalogs on class indices and string indices;
+`schemaEqIdx_sound` (Proofs/SchemaFacts.lean) lifts it to the real comparison:
+  classesOk texts cls → schemaEqIdx cls a b → schemaEq (toDump texts strs a) (toDump texts strs b).
 -/
 import EngineModel.Spec.SchemaDump
 
 namespace EngineModel.Spec.SchemaFacts
 open EngineModel.Spec.SqlCanon EngineModel.Spec.SchemaDump
 
-abbrev NStr := List Nat
+/-- A name (database label, object type, object / column / index name, declared type,
+default text …) is an index into the table `strs` of distinct strings, so that the kernel
+compares catalogs by comparing numbers. -/
+abbrev NStr := Nat
 
-def toStr (s : NStr) : Str := s.map Char.ofNat
-
-/-- A byte string given as its length and its little-endian base-256 number (the compact
-form the generated facts use: one numeral per string instead of one per byte). -/
-def dec : Nat → Nat → NStr
-  | 0, _ => []
-  | k + 1, n => (n % 256) :: dec k (n / 256)
+def toStr (strs : List Str) (s : NStr) : Str := strs.getD s []
 
 structure IRow where
   db : NStr
@@ -81,17 +80,19 @@ structure IDump where
 
 def textAt (texts : List Str) (i : Nat) : Str := texts.getD i []
 
-def toRow (texts : List Str) (r : IRow) : MasterRow :=
-  ⟨toStr r.db, toStr r.type, toStr r.name, toStr r.tbl, r.sql.map (textAt texts)⟩
+def toRow (texts strs : List Str) (r : IRow) : MasterRow :=
+  ⟨toStr strs r.db, toStr strs r.type, toStr strs r.name, toStr strs r.tbl, r.sql.map (textAt texts)⟩
 
-def toCol (c : ICol) : Column := ⟨toStr c.name, toStr c.type, c.notnull, c.dflt.map toStr, c.pk⟩
-def toTable (t : ITable) : TableCols := ⟨toStr t.db, toStr t.tbl, t.cols.map toCol⟩
-def toIdxCol (c : IIdxCol) : IndexCol := ⟨c.seqno, c.name.map toStr⟩
-def toIndex (i : IIndex) : Index := ⟨toStr i.name, i.unique, toStr i.origin, i.partialIdx, i.cols.map toIdxCol⟩
-def toTableIdx (t : ITableIdx) : TableIdx := ⟨toStr t.db, toStr t.tbl, t.idx.map toIndex⟩
+def toCol (strs : List Str) (c : ICol) : Column :=
+  ⟨toStr strs c.name, toStr strs c.type, c.notnull, c.dflt.map (toStr strs), c.pk⟩
+def toTable (strs : List Str) (t : ITable) : TableCols := ⟨toStr strs t.db, toStr strs t.tbl, t.cols.map (toCol strs)⟩
+def toIdxCol (strs : List Str) (c : IIdxCol) : IndexCol := ⟨c.seqno, c.name.map (toStr strs)⟩
+def toIndex (strs : List Str) (i : IIndex) : Index :=
+  ⟨toStr strs i.name, i.unique, toStr strs i.origin, i.partialIdx, i.cols.map (toIdxCol strs)⟩
+def toTableIdx (strs : List Str) (t : ITableIdx) : TableIdx := ⟨toStr strs t.db, toStr strs t.tbl, t.idx.map (toIndex strs)⟩
 
-def toDump (texts : List Str) (d : IDump) : Dump :=
-  ⟨d.master.map (toRow texts), d.tables.map toTable, d.indexes.map toTableIdx⟩
+def toDump (texts strs : List Str) (d : IDump) : Dump :=
+  ⟨d.master.map (toRow texts strs), d.tables.map (toTable strs), d.indexes.map (toTableIdx strs)⟩
 
 /-! ### the comparison on class indices -/
 
@@ -122,6 +123,32 @@ def classesOk (texts : List Str) (cls : List Nat) : Bool :=
   cls.length == texts.length &&
   (List.range texts.length).all fun i =>
     clsOf cls i == i || canonChars (textAt texts i) == canonChars (textAt texts (clsOf cls i))
+
+/-- The coarsenings of `canon` beyond whitespace and quoting are not exercised by the data:
+no text contains a comment (which `canon` drops like whitespace, as SQLite's tokenizer
+does) or an unterminated quote (`junk`). -/
+def tameLexeme : Lexeme → Bool
+  | .lineComment _ _ => false
+  | .blockComment _ _ => false
+  | .junk _ => false
+  | _ => true
+
+def textsTame (texts : List Str) : Bool := texts.all fun t => (lex t).all tameLexeme
+
+/-- No `--` and no `/*` anywhere in the text (so the lexer cannot have produced a comment). -/
+def noCommentStart : List Char → Bool
+  | [] => true
+  | [_] => true
+  | c :: d :: r => !((c == '-' && d == '-') || (c == '/' && d == '*')) && noCommentStart (d :: r)
+
+def textsCommentFree (texts : List Str) : Bool := texts.all noCommentStart
+
+/-- Row `k` of catalog `a` has no counterpart (same database, type, name, table and `canon`
+of the DDL) in catalog `b`. -/
+def noCounterpart (texts strs : List Str) (a b : IDump) (k : Nat) : Bool :=
+  match a.master[k]? with
+  | none => false
+  | some r => b.master.all fun r' => canonRow (toRow texts strs r') != canonRow (toRow texts strs r)
 
 /-- Look a catalog up by index (out of range = the empty catalog). -/
 def dumpAt (dumps : List IDump) (i : Nat) : IDump := dumps.getD i ⟨[], [], []⟩
